@@ -181,6 +181,8 @@ class _Normalizer:
             self._each_function(m, self._inline_pure_everywhere)
             self._each_function(m, self._tabulated_functions)
             self._each_function(m, self._table_dispatch)
+            # (a dispatch through a table of one-expression factories leaves calls of those factories behind)
+            self._each_function(m, self._inline_pure_everywhere)
             self._each_function(m, self._prune_constant_tests)
             self._each_function(m, self._data_driven)
             self._each_function(m, self._display_algebra)
